@@ -349,10 +349,7 @@ Definition sl_store (D : alist) (st : fs) : alist :=
   | _ => match st Cmd with Whole (CRec r) => r ++ D | _ => D end
   end.
 Definition sl_rec (D : alist) (st : fs) : alist :=
-  match st Core with
-  | Whole (CStore l) => match st Cmd with Whole (CRec r) => r ++ D | _ => D end
-  | _ => D
-  end.
+  match st Cmd with Whole (CRec r) => r ++ D | _ => D end.
 
 Lemma setup_like_Inv : forall e D st, Inv st ->
   setup_like e D st = (mkdirs st ++ body e (sl_store D st) (sl_rec D st) st, Done).
@@ -576,7 +573,7 @@ Lemma sl_store_view : forall D s s', s Core = s' Core -> s Cmd = s' Cmd -> sl_st
 Proof. intros D s s' A B. unfold sl_store. rewrite A, B. reflexivity. Qed.
 
 Lemma sl_rec_view : forall D s s', s Core = s' Core -> s Cmd = s' Cmd -> sl_rec D s = sl_rec D s'.
-Proof. intros D s s' A B. unfold sl_rec. rewrite A, B. reflexivity. Qed.
+Proof. intros D s s' A B. unfold sl_rec. rewrite B. reflexivity. Qed.
 
 Lemma followup_plan : forall e st, Inv st ->
   plan_of e (followup st) st = setup_like e [] st.
@@ -941,13 +938,12 @@ Proof.
   unfold sl_store, sl_rec. rewrite Bm.
   destruct Bc as [Bc|Bc]; rewrite Bc.
   - (* coredata.dat was not in the listing *)
-    destruct HI as [[Hc|[l Hc]] [Hm|[r Hm]]]; rewrite Hc; try rewrite Hm; try reflexivity.
-    + rewrite (Ab Hc) in Hm. discriminate.
-    + specialize (Cp l Hc). rewrite Hm in Cp. cbn [rec_of] in Cp.
-      change D' with ([] ++ D') at 2. apply value_ext_app; auto.
-    + specialize (Cp l Hc). rewrite Hm in Cp. cbn [rec_of] in Cp. apply value_ext_app; auto.
-  - destruct HI as [_ [Hm|[r Hm]]]; rewrite Hm; [reflexivity|].
-    subst D'. rewrite Hm. cbn [rec_of]. apply value_dup.
+    destruct HI as [[Hc|[l Hc]] Hm']; rewrite Hc; [reflexivity|].
+    specialize (Cp l Hc).
+    destruct Hm' as [Hm|[r Hm]]; rewrite Hm in *; cbn [rec_of] in Cp.
+    + change D' with ([] ++ D') at 2. apply value_ext_app; auto.
+    + apply value_ext_app; auto.
+  - reflexivity.
 Qed.
 
 Lemma exec_Good : forall e c st, fixed e -> Good st -> Good (exec e c st).
